@@ -831,6 +831,7 @@ type errExit struct {
 	val    ssa.Value
 	guards []core.Guard
 	ret    *ssa.Return
+	via    *ssa.BasicBlock // the predecessor block of the merge this alternative comes through (nil: the return itself)
 }
 
 // errorExits expands the error returns of fn into their alternatives.
@@ -838,11 +839,11 @@ func errorExits(fn *ssa.Function) []errExit {
 	var out []errExit
 	for ret, ev := range returnedErrors(fn) {
 		ev = core.BlockLocalLoad(ev)
-		var expand func(v ssa.Value, guards []core.Guard, d int)
-		expand = func(v ssa.Value, guards []core.Guard, d int) {
+		var expand func(v ssa.Value, guards []core.Guard, via *ssa.BasicBlock, d int)
+		expand = func(v ssa.Value, guards []core.Guard, via *ssa.BasicBlock, d int) {
 			ph, ok := v.(*ssa.Phi)
 			if !ok || d > 3 {
-				out = append(out, errExit{v, guards, ret})
+				out = append(out, errExit{v, guards, ret, via})
 				return
 			}
 			for i, e := range ph.Edges {
@@ -853,13 +854,13 @@ func errorExits(fn *ssa.Function) []errExit {
 				if !core.LiveEdge(pred, ph.Block()) {
 					continue
 				}
-				expand(e, core.GuardsOfEdge(pred, ph.Block()), d+1)
+				expand(e, core.GuardsOfEdge(pred, ph.Block()), pred, d+1)
 			}
 		}
 		if ph, ok := ev.(*ssa.Phi); ok {
-			expand(ph, nil, 0)
+			expand(ph, nil, nil, 0)
 		} else {
-			out = append(out, errExit{ev, core.GuardsOf(ret), ret})
+			out = append(out, errExit{ev, core.GuardsOf(ret), ret, nil})
 		}
 	}
 	return out
